@@ -50,6 +50,10 @@ def run_for(prop, tier):
             cwd = os.path.join(REPO, "vls-core")
             cmd = ["cargo", "kani", "--no-default-features", "--features", "std", "-Z", "stubbing"]
             tgt = os.path.join(KANI_DIR, "target-inline")
+            if os.path.realpath(REPO) != "/repo":
+                # a scratch copy of the tree must never share build output with /repo: Kani's artefacts are keyed by crate
+                # name, so a later run on the unchanged tree could pick up the goto binaries of the modified copy
+                tgt = os.path.join(os.environ.get("VX_OUT") or os.path.join(REPO, ".."), "kani-target-inline")
         for h in hs:
             cmd += ["--harness", h["name"]]
         os.environ["CARGO_TARGET_DIR"] = tgt
